@@ -68,6 +68,37 @@ def matrix(a, n):
     return (1j ** a[2]) * m
 
 
+_SIGN_CACHE = {}
+
+
+def _rev(mask, n):
+    r = 0
+    for q in range(n):
+        if (mask >> q) & 1:
+            r |= 1 << (n - 1 - q)
+    return r
+
+
+def apply_pauli(a, n, f):
+    """a|f> for a flat vector f (qubit 0 = most significant index bit), without building the matrix."""
+    x, z, ph = a
+    key = (n, z)
+    if key not in _SIGN_CACHE:
+        idx = np.arange(1 << n)
+        zm = _rev(z, n)
+        par = np.zeros(1 << n, dtype=int)
+        m = idx & zm
+        while np.any(m):
+            par ^= m & 1
+            m >>= 1
+        _SIGN_CACHE[key] = 1 - 2 * par
+    sg = _SIGN_CACHE[key]
+    out = np.empty_like(f)
+    idx = np.arange(1 << n)
+    out[idx ^ _rev(x, n)] = (1j ** ph) * sg * f
+    return out
+
+
 # ---- local Clifford conjugation tables ----------------------------------------------
 # images of local generators, as local Paulis (bits over the gate's own qubits 0..k-1)
 _X0, _Z0 = (1, 0, 0), (0, 1, 0)
@@ -368,7 +399,7 @@ class StabGroup:
 
     def stabilises(self, v, tol=1e-9):
         f = sv.flat(v)
-        return all(np.linalg.norm(matrix(g, self.n) @ f - f) < tol for g in self.gens)
+        return all(np.linalg.norm(apply_pauli(g, self.n, f) - f) < tol for g in self.gens)
 
     def key(self):
         """canonical hashable key of the state (reduced echelon form of the signed generators)."""
